@@ -46,7 +46,14 @@ mutual
             (printList true b ++ ' ' :: ("done".toList ++ t))))
         | none => True) ∧
       ItemsOk true b (' ' :: ("done".toList ++ t))
-    | .caseCmd _ _, _ => False
+    | .caseCmd subject items, t =>
+      TokWordOk subject (' ' :: ("in".toList ++ ' ' :: caseText items ("esac".toList ++ t))) ∧
+      CaseItemsOk items ("esac".toList ++ t)
+  def CaseItemsOk : List CaseItem → List Char → Prop
+    | [], _ => True
+    | .mk ps b k :: rest, after =>
+      PatsOk ps (')' :: ' ' :: (printList false b ++ (k.str ++ ' ' :: caseText rest after))) ∧
+      ItemsOk false b (k.str ++ ' ' :: caseText rest after) ∧ CaseItemsOk rest after
   def ElifsOk : List ElifThen → List Char → Prop
     | [], _ => True
     | .mk c b :: rest, after =>
@@ -243,7 +250,8 @@ theorem andor_rt (pc : CmdParser) (n : Nat) (hpc : PcOk pc n) (a : AndOrList) (t
   simpa [printAndOr, printAndOrRest_eq] using this
 
 theorem items_rt (pc : CmdParser) (n : Nat) (hpc : PcOk pc n) (alt : Bool) (tail : List Char)
-    (hlt : ListTail tail) (he : alt = false → EndsWithout tail contOps) :
+    (hamp : EndsWithout ('&' :: tail) contOps) (hsemi : alt = true → EndsWithout (';' :: tail) contOps)
+    (he : alt = false → EndsWithout tail contOps) :
     ∀ l, ItemsOk alt l tail → ldepth l ≤ n → ItemsRT pc alt l tail := by
   intro l
   induction l with
@@ -258,10 +266,10 @@ theorem items_rt (pc : CmdParser) (n : Nat) (hpc : PcOk pc n) (alt : Bool) (tail
       simp only [ItemsRT]
       apply andor_rt pc n hpc a _ h (by omega)
       cases async with
-      | true => simpa using ends_amp tail hlt contOps (fun _ h => h)
+      | true => simpa using hamp
       | false =>
         cases alt with
-        | true => simpa using ends_semi tail hlt contOps (fun _ h => h)
+        | true => simpa using hsemi rfl
         | false => simpa using he rfl
     | cons j rest =>
       simp only [ItemsOk] at h
@@ -272,12 +280,21 @@ theorem items_rt (pc : CmdParser) (n : Nat) (hpc : PcOk pc n) (alt : Bool) (tail
       | true => simpa using ends_amp _ (Or.inl ⟨_, rfl⟩) contOps (fun _ h => h)
       | false => simpa using ends_semi _ (Or.inl ⟨_, rfl⟩) contOps (fun _ h => h)
 
-theorem list_rt (pc : CmdParser) (n : Nat) (hpc : PcOk pc n) (alt : Bool) (l : List Item) (tail : List Char)
-    (hlt : ListTail tail) (he : alt = false → EndsWithout tail contOps)
+theorem list_rt' (pc : CmdParser) (n : Nat) (hpc : PcOk pc n) (alt : Bool) (l : List Item) (tail : List Char)
+    (hamp : EndsWithout ('&' :: tail) contOps) (hsemi : alt = true → EndsWithout (';' :: tail) contOps)
+    (he : alt = false → EndsWithout tail contOps)
     (hend : ListEnd pc alt tail ∧ CloserAt tail) (h : ItemsOk alt l tail) (hd : ldepth l ≤ n) :
     ListRT pc alt l tail := by
   intro sp hsp fuel hf
-  exact compoundList_rt pc alt l tail hend.1 hend.2 (items_rt pc n hpc alt tail hlt he l h hd) sp hsp fuel hf
+  exact compoundList_rt pc alt l tail hend.1 hend.2 (items_rt pc n hpc alt tail hamp hsemi he l h hd) sp hsp
+    fuel hf
+
+theorem list_rt (pc : CmdParser) (n : Nat) (hpc : PcOk pc n) (alt : Bool) (l : List Item) (tail : List Char)
+    (hlt : ListTail tail) (he : alt = false → EndsWithout tail contOps)
+    (hend : ListEnd pc alt tail ∧ CloserAt tail) (h : ItemsOk alt l tail) (hd : ldepth l ≤ n) :
+    ListRT pc alt l tail :=
+  list_rt' pc n hpc alt l tail (ends_amp tail hlt contOps (fun _ h => h))
+    (fun _ => ends_semi tail hlt contOps (fun _ h => h)) he hend h hd
 
 
 /-- a list that ends in front of ` <closer> next` -/
@@ -319,6 +336,80 @@ theorem elifs_rt (pc : CmdParser) (n : Nat) (hpc : PcOk pc n) (after : List Char
     obtain ⟨hc, hb, h1, h2, h3⟩ := h
     exact ⟨hc, hb, list_rt_kw pc n hpc c "then" kw_then (by decide) _ (nextOk_blank _) h1 (by omega),
       list_rt_after pc n hpc b _ (elifText_afterOk es after ha) h2 (by omega), ih h3 (by omega)⟩
+
+
+/-- `&` in front of a case terminator is read alone -/
+theorem lexToken_amp_cont (k : CaseCont) (x : List Char) :
+    lexToken ('&' :: (k.str ++ ' ' :: x)) = some (⟨[], .op .and⟩, k.str ++ ' ' :: x) := by
+  apply lexToken_op1 '&' _ .and ⟨by decide, by decide, by decide⟩
+  cases k <;> simp [CaseCont.str, lexOperator, opTail, skipLC_cons_ne, List.lookup]
+
+theorem tailOk_cont (k : CaseCont) (x : List Char) (sp : Bool) :
+    TailOk ((if sp then [' '] else []) ++ (k.str ++ ' ' :: x)) := by
+  cases k
+  · exact ⟨sp, ';', ';' :: ' ' :: x, by simp [CaseCont.str], Or.inl rfl⟩
+  · exact ⟨sp, ';', '&' :: ' ' :: x, by simp [CaseCont.str], Or.inl rfl⟩
+  · exact ⟨sp, ';', '|' :: ' ' :: x, by simp [CaseCont.str], Or.inl rfl⟩
+
+theorem contOp_facts (k : CaseCont) :
+    (contOp k).plain = true ∧ contOp k ∉ contOps ∧ contOp k ≠ .semicolon ∧ contOp k ≠ .and ∧
+      contOp k ≠ .newline ∧ (Token.mk [] (.op (contOp k))).isClauseDelimiter = true := by
+  cases k <;> decide
+
+theorem listEnd_cont (pc : CmdParser) (n : Nat) (hpc : PcOk pc n) (k : CaseCont) (x : List Char) (sp : Bool) :
+    ListEnd pc false ((if sp then [' '] else []) ++ (k.str ++ ' ' :: x)) ∧
+      CloserAt ((if sp then [' '] else []) ++ (k.str ++ ' ' :: x)) ∧
+      EndsWithout ((if sp then [' '] else []) ++ (k.str ++ ' ' :: x)) contOps := by
+  have hl := lexToken_cont k x sp
+  obtain ⟨f1, f2, f3, f4, f5, f6⟩ := contOp_facts k
+  have hns : NoStart ⟨[], .op (contOp k)⟩ := Or.inr ⟨_, rfl, f1⟩
+  have hamp : lexToken ('&' :: ((if sp then [' '] else []) ++ (k.str ++ ' ' :: x))) =
+      some (⟨[], .op .and⟩, (if sp then [' '] else []) ++ (k.str ++ ' ' :: x)) := by
+    cases sp with
+    | false => simpa using lexToken_amp_cont k x
+    | true => simpa using lexToken_amp (' ' :: (k.str ++ ' ' :: x)) (Or.inl ⟨_, rfl⟩)
+  refine ⟨⟨noCmdAt_of pc n hpc _ _ _ hl hns (by simp [Token.isKw]), hamp, (fun h => Bool.noConfusion h), ?_,
+    ⟨_, _, hl⟩⟩, ⟨_, _, hl, by simp [Token.isOp, f5], f6⟩,
+    endsWithout_of _ (tailOk_cont k x sp) _ _ hl _ f2⟩
+  intro t r h
+  rw [hl] at h
+  cases h
+  simp [Token.isOp, f3, f4]
+
+theorem ends_amp_cont (k : CaseCont) (x : List Char) : EndsWithout ('&' :: (k.str ++ ' ' :: x)) contOps :=
+  endsWithout_of _ (tailOk_cons '&' _ (Or.inr (Or.inl rfl))) _ _ (lexToken_amp_cont k x) _ (by decide)
+
+theorem caseItems_rt (pc : CmdParser) (n : Nat) (hpc : PcOk pc n) (after : List Char) :
+    ∀ items, CaseItemsOk items after → cidepth items ≤ n → CaseItemsRT pc items after := by
+  intro items
+  induction items with
+  | nil => intro _ _; trivial
+  | cons i items ih =>
+    intro h hd
+    obtain ⟨ps, b, k⟩ := i
+    simp only [CaseItemsOk] at h
+    simp only [cidepth] at hd
+    obtain ⟨hps, hb, hrest⟩ := h
+    refine ⟨hps, ?_, ih hrest (by omega)⟩
+    cases b with
+    | nil =>
+      obtain ⟨he, hc, _⟩ := listEnd_cont pc n hpc k (caseText items after) true
+      simp only [if_true, List.singleton_append] at he hc
+      refine ⟨' ' :: (k.str ++ ' ' :: caseText items after), ?_, by
+        simpa using lexToken_cont k (caseText items after) true⟩
+      intro fuel hf
+      have := compoundList_rt pc false [] _ he hc trivial false (fun _ => rfl) fuel hf
+      simpa [printList] using this
+    | cons j rest =>
+      obtain ⟨he, hc, hew⟩ := listEnd_cont pc n hpc k (caseText items after) false
+      simp only [Bool.false_eq_true, if_false, List.nil_append] at he hc hew
+      have hl := list_rt' pc n hpc false (j :: rest) _ (ends_amp_cont k _) (fun e => Bool.noConfusion e)
+        (fun _ => hew) ⟨he, hc⟩ hb (by omega)
+      refine ⟨k.str ++ ' ' :: caseText items after, ?_, by
+        simpa using lexToken_cont k (caseText items after) false⟩
+      intro fuel hf
+      have := hl true (fun e => by cases e) fuel hf
+      simpa using this
 
 /-- layer 4 composed: every compound command of the closed fragment reads back -/
 theorem compound_rt (pc : CmdParser) (n : Nat) (hpc : PcOk pc n) (c : CompoundCommand) (t : List Char)
@@ -383,7 +474,10 @@ theorem compound_rt (pc : CmdParser) (n : Nat) (hpc : PcOk pc n) (c : CompoundCo
     intro vs e
     subst e
     exact hvals
-  | caseCmd _ _ => simp [CompoundOk] at h
+  | caseCmd subject items =>
+    simp only [CompoundOk] at h
+    simp only [cpdepth] at hd
+    exact case_rt pc subject items t hn h.1 (caseItems_rt pc n hpc _ items h.2 hd) sp
 
 
 /-- the first token of a printed compound command of the fragment, and its first character -/
@@ -428,7 +522,12 @@ theorem compound_start (c : CompoundCommand) (t : List Char) (h : CompoundOk c t
     obtain ⟨x, e⟩ := e
     rw [e]
     exact ⟨headOk_kw "for" kw_for _, _, _, lexToken_kw_exact "for" kw_for _ (nextOk_blank _) sp, Or.inl rfl⟩
-  | caseCmd _ _ => simp [CompoundOk] at h
+  | caseCmd subject items =>
+    have e : ∃ x, printCompound (.caseCmd subject items) ++ t = "case".toList ++ ' ' :: x := by
+      exact ⟨_, by simp [printCompound, str]; rfl⟩
+    obtain ⟨x, e⟩ := e
+    rw [e]
+    exact ⟨headOk_kw "case" kw_case _, _, _, lexToken_kw_exact "case" kw_case _ (nextOk_blank _) sp, Or.inl rfl⟩
 
 
 /-- the knot: `Parser::command` with nesting budget `n + 1` reads back every command of the closed
